@@ -558,10 +558,14 @@ func genConfCase(r *Rng, tier string) ConfCase {
 		g.viol, g.noise = 0, 0 // a clean configuration
 	}
 	cfg := g.config()
+	kind := "valid"
+	if r.Chance(14) {
+		cfg, kind = g.limitScenario(), "limitchain"
+	}
 	b := confYAML(cfg)
-	c := ConfCase{Kind: "valid", YAML: string(b)}
+	c := ConfCase{Kind: kind, YAML: string(b)}
 	node := confParseNode(b)
-	if r.Chance(22) && node != nil {
+	if kind == "valid" && r.Chance(22) && node != nil {
 		// malformed / structural variant stream
 		n := 1 + r.Intn(2)
 		notes := []string{}
